@@ -221,8 +221,8 @@ def _only_numeric_base_sum_exponent_differs(t0, t1):
         for term in terms:
             base, ex = term[1], term[2]
             if base[0] in ('Integer', 'Rational', 'Complex'):
-                if ex[0] not in ('Integer', 'Rational'):
-                    special += 1       # numeric base with a symbolic exponent (sum or not)
+                if ex[0] not in ('Integer', 'Rational') or base[0] == 'Complex':
+                    special += 1       # numeric base with a symbolic exponent (sum or not); powers of a complex constant are not merged uniquely either
                 else:
                     rest.append(json.dumps([base, ex], sort_keys=True))
             else:
